@@ -123,21 +123,25 @@ def lin_of(fn, du, op, cfgd, depth=0):
     if k in ("use", "cast"):
         return lin_of(fn, du, rv["op"], cfgd, depth + 1)
     if k == "bin" and rv["op"] in ("Add", "AddWithOverflow", "Sub", "SubWithOverflow", "AddUnchecked", "SubUnchecked"):
-        a = lin_of(fn, du, rv["l"], cfgd, depth + 1)
-        b = lin_of(fn, du, rv["r"], cfgd, depth + 1)
-        sign = 1 if rv["op"].startswith("Add") else -1
-        if b.base == ("const",):
-            return Lin(a.base, a.off + sign * b.off)
-        if a.base == ("const",) and sign == 1:
-            return Lin(b.base, b.off + a.off)
-        if sign == -1 and a.base == ("h",) and b.base[0] == "min" and (("h",), 0) in b.base[1:]:
-            return Lin(("h_minus_min",))
-        return Lin(("other", "bin"))
+        return lin_bin(fn, du, rv, cfgd, depth)
     if k == "un" and rv["op"] == "PtrMetadata" and bound[0] == "len":
         p2 = op_place(rv["x"])
         if p2 is not None and bound[1] in field_names_of_place(fn, du, p2):
             return Lin(("L",))
     return Lin(("other", k))
+
+
+def lin_bin(fn, du, rv, cfgd, depth=0):
+    a = lin_of(fn, du, rv["l"], cfgd, depth + 1)
+    b = lin_of(fn, du, rv["r"], cfgd, depth + 1)
+    sign = 1 if rv["op"].startswith("Add") else -1
+    if b.base == ("const",):
+        return Lin(a.base, a.off + sign * b.off)
+    if a.base == ("const",) and sign == 1:
+        return Lin(b.base, b.off + a.off)
+    if sign == -1 and a.base == ("h",) and b.base[0] == "min" and (("h",), 0) in b.base[1:]:
+        return Lin(("h_minus_min",))
+    return Lin(("other", "bin"))
 
 
 def evalv(lin, h, L):
@@ -437,7 +441,13 @@ def rule_b(F):
                     if st["rv"]["k"] == "agg":
                         continue
                     n_stores += 1
-                    val = lin_of(f, du, st["rv"]["op"], cfgd) if st["rv"]["k"] == "use" else Lin(("other", st["rv"]["k"]))
+                    if st["rv"]["k"] == "use":
+                        val = lin_of(f, du, st["rv"]["op"], cfgd)
+                    elif st["rv"]["k"] == "bin" and st["rv"]["op"] in ("Add", "Sub", "AddUnchecked", "SubUnchecked"):
+                        # overflow checks off: `(*self).count = Add(copy (*self).count, const 1)` in one statement
+                        val = lin_bin(f, du, st["rv"], cfgd)
+                    else:
+                        val = Lin(("other", st["rv"]["k"]))
                     guards = guards_on_path(f, du, bi, cfgd) + inherited
                     ig = getattr(val, "implied_ge", None)
                     if ig is not None and ig[0] == ("h",):
@@ -499,10 +509,10 @@ def rule_b(F):
                 cfg = f.cfg
                 for b2, blk2 in enumerate(f.blocks):
                     for st2 in blk2["stmts"]:
-                        if st2["k"] == "assign" and st2["rv"]["k"] == "use" and st2["place"]["p"]:
+                        if st2["k"] == "assign" and st2["rv"]["k"] in ("use", "bin") and st2["place"]["p"]:
                             nm2 = [n for n in field_names_of_place(f, du, st2["place"]) if n not in ("0", "1", "pointer")]
                             if nm2[-1:] == [cfgd["height"]] and (cfg.dominates(b2, bi) and b2 != bi or (b2 == bi)):
-                                stored = lin_of(f, du, st2["rv"]["op"], cfgd)
+                                stored = lin_of(f, du, st2["rv"]["op"], cfgd) if st2["rv"]["k"] == "use" else lin_bin(f, du, st2["rv"], cfgd)
                                 if idx.base == ("h",) and stored.base == ("h",):
                                     idx = Lin(("h",), idx.off + stored.off)
                 if idx.base == ("h",):
